@@ -28,7 +28,8 @@ Check(it) ==
         LET R == ToSet(it.R)  L == ToSet(it.L)  T == ToSet(it.T)
             exp == Update(TRUE, R, L, T, it.v, Best)
             cexp == Update(TRUE, R, L, T, it.v, Code)
-            l1 == IF it.out = NoBranch \/ it.out = exp THEN {} ELSE {"UsesBestOrError"}
+            l1 == (IF it.out = NoBranch \/ it.out = exp THEN {} ELSE {"UsesBestOrError"})
+                  \cup (IF it.revOk THEN {} ELSE {"RecordedRevisionIsCommitInUse"})
             l2 == it.out = (IF cexp.k = "v" THEN NoBranch ELSE cexp)
         IN /\ IF l1 = {} THEN TRUE ELSE PrintT(<<"V", it.id, 1, "L1", l1>>)
            /\ IF l1 # {} \/ l2 THEN TRUE ELSE PrintT(<<"V", it.id, 1, "L2", {}>>)
@@ -36,7 +37,10 @@ Check(it) ==
         LET R == ToSet(it.R)  L == ToSet(it.L)  T == ToSet(it.T)
             exp == Update(it.hasRemote, R, L, T, it.v, Best)
             src == IF it.hasRemote /\ Best(R, it.v) # NoBranch THEN R ELSE L
+            \* R = the remote's branches NOW (branches deleted upstream since the clone are not in it); revOk: the revision Rally
+            \* recorded (what a later load of the same configuration checks out again) is the commit that is checked out
             l1 == (IF it.out = exp THEN {} ELSE {"UpdateUsesDocumentedBest"})
+                  \cup (IF it.revOk THEN {} ELSE {"RecordedRevisionIsCommitInUse"})
                   \cup (IF it.out.k = "tag" => (Best(L, it.v) = NoBranch /\ (~it.hasRemote \/ Best(R, it.v) = NoBranch)) THEN {} ELSE {"TagFallbackOnlyWhenNoBranch"})
                   \cup {c \in Clauses \ {"IsDocumentedBest", "ErrorIffNothingQualifies"} : it.out.k \in {"v", "master"} /\ ~Holds(c, src, it.v, it.out)}
             l2 == it.out = Update(it.hasRemote, R, L, T, it.v, Code)
